@@ -17,3 +17,6 @@ pub use messages::{
 
 pub const CONSISTENCY_SOURCE_ID: usize = 0;
 pub const READ_REPAIR_SOURCE_ID: usize = 1;
+
+#[cfg(datacake_verif)]
+pub use messages::{CorruptedState, PurgeDeletes, SymDiff};
